@@ -15,6 +15,9 @@ import (
 type methodCache[R CacheableResult] struct {
 	mu           sync.Mutex
 	cachedValues map[string]*cacheEntry[R]
+	// gen counts invalidations. A result requested before an invalidation must
+	// not be stored after it: see generation and putIfCurrent.
+	gen uint64
 }
 
 type cacheEntry[R CacheableResult] struct {
@@ -58,12 +61,41 @@ func (mc *methodCache[R]) invalidate() {
 	mc.mu.Lock()
 	defer mc.mu.Unlock()
 	clear(mc.cachedValues)
+	mc.gen++
 }
 
 func (mc *methodCache[R]) invalidateKey(key string) {
 	mc.mu.Lock()
 	defer mc.mu.Unlock()
 	delete(mc.cachedValues, key)
+	mc.gen++
+}
+
+// generation returns the current invalidation count. Callers sample it before
+// sending the request whose result they intend to cache.
+func (mc *methodCache[R]) generation() uint64 {
+	mc.mu.Lock()
+	defer mc.mu.Unlock()
+	return mc.gen
+}
+
+// putIfCurrent stores result unless the cache was invalidated since gen was
+// sampled: a response that was already in flight when a change notification
+// invalidated the cache describes the state before that change, and caching it
+// would make later calls return data older than the notification.
+func (mc *methodCache[R]) putIfCurrent(key string, result R, gen uint64) {
+	mc.mu.Lock()
+	defer mc.mu.Unlock()
+	if mc.gen != gen {
+		return
+	}
+	if mc.cachedValues == nil {
+		mc.cachedValues = make(map[string]*cacheEntry[R])
+	}
+	mc.cachedValues[key] = &cacheEntry[R]{
+		result:     result,
+		receivedAt: time.Now(),
+	}
 }
 
 // cursorParams is the constraint for list-method params that carry a pagination
